@@ -54,6 +54,9 @@ def gen_case(rng, tier):
         "style": style,
         "p_not_defined": rng.choice([0.0, 0.1, 0.5, 0.9, 1.0]),
         "subset_seed": rng.randrange(1 << 30),
+        # arbitrary types (incl. type lists) as list elements, and a second
+        # method whose definitions are parameterised by a list of tags
+        "element_kinds": rng.random() < 0.6,
     }
 
 
@@ -273,10 +276,22 @@ def emit_program(case):
     # in order (templates outermost, rightmost list fastest)
     srng = random.Random(case["subset_seed"] + 3)
     small = [srng.randint(1, 3) for _ in range(srng.choice([1, 2, 2, 3]))]
-    slists = ", ".join("types<%s>" % ", ".join("K<%d>" % (i + 40 * d)
-                                               for i in range(n))
-                       for d, n in enumerate(small))
-    scombos = [", ".join("K<%d>" % (i + 40 * d) for d, i in enumerate(c))
+    # the elements of a list are arbitrary types: classes, fundamental and
+    # compound types, instantiations of templates, template_<> wrappers and
+    # type lists themselves (an element that is a list stays one element)
+    def element(d, i):
+        k = "K<%d>" % (i + 40 * d)
+        if not case.get("element_kinds"):
+            return k
+        return srng.choice([
+            k, k, "const %s&" % k, "%s*" % k, "int", "void",
+            "types<%s, int>" % k, "types<%s>" % k, "types<>",
+            "types<types<%s>, types<>>" % k, "TB<%s, TA<>>" % k,
+            "template_<TA>", "std::pair<%s, types<int, char>>" % k,
+            "types<int>(*)(types<%s>)" % k])
+    selems = [[element(d, i) for i in range(n)] for d, n in enumerate(small)]
+    slists = ", ".join("types<%s>" % ", ".join(e) for e in selems)
+    scombos = [", ".join(selems[d][i] for d, i in enumerate(c))
                for c in combos(small)]
     out.append("template<typename...> struct TA; template<typename...> "
                "struct TB;")
@@ -293,6 +308,42 @@ def emit_program(case):
     out.append("static_assert(std::is_same_v<product<%s>, types<%s>>, "
                "\"product\");" % (
                    slists, ", ".join("types<%s>" % c for c in scombos)))
+    # a second, tiny method whose definition template takes, besides the
+    # class, a *list* of tags as one template argument: the product's last
+    # list holds type lists as elements
+    n2 = 0
+    if case.get("element_kinds"):
+        tagl = [["int", "char"], [], ["K<0>"], ["types<int>", "long"]]
+        srng.shuffle(tagl)
+        tagl = tagl[:srng.randint(1, 3)]
+        ncls2 = min(nmax, srng.randint(1, 3))
+        defined2 = [(i, t) for i in range(ncls2) for t in range(len(tagl))
+                    if srng.random() < 0.7]
+        out.append("struct YOMM2_SYMBOL(meth2);")
+        out.append("using meth2 = method<YOMM2_SYMBOL(meth2), int("
+                   "virtual_<Root&>)>;")
+        out.append("template<typename M, typename...> struct definition2 : "
+                   "not_defined {};")
+        seen = set()
+        for i, t in defined2:
+            if i in seen:
+                continue   # one class, one definition (no duplicates)
+            seen.add(i)
+            out.append("template<> struct definition2<meth2, K<%d>, "
+                       "types<%s>> { static int fn(K<%d>&) { return %d; } };"
+                       % (i, ", ".join(tagl[t]), i, 7000 + 10 * i + t))
+        defined2 = [(i, t) for k, (i, t) in enumerate(defined2)
+                    if (i, t) == next(x for x in defined2 if x[0] == i)]
+        out.append("using product2 = product<types<meth2>, types<%s>, "
+                   "types<%s>>;" % (
+                       ", ".join("K<%d>" % i for i in range(ncls2)),
+                       ", ".join("types<%s>" % ", ".join(t) for t in tagl)))
+        out.append("static_assert(mp::mp_size<product2>::value == %d, "
+                   "\"product of lists holding lists\");"
+                   % (ncls2 * len(tagl)))
+        out.append("use_definitions<definition2, product2> YOMM2_GENSYM;")
+        n2 = ncls2
+        case["_m2"] = (ncls2, [(i, 7000 + 10 * i + t) for i, t in defined2])
     out.append("use_definitions<definition, the_product> YOMM2_GENSYM;")
     out.append("struct NotImplemented {};")
     # expected table
@@ -332,6 +383,27 @@ def emit_program(case):
     out.append("            ++failures;")
     out.append("        }")
     out.append("    }")
+    if case.get("_m2"):
+        ncls2, defs2 = case.pop("_m2")
+        exp = dict(defs2)
+        out.append("    if (meth2::fn.specs.size() != %d) { std::printf("
+                   "\"FAIL meth2: the catalog holds %%zu definitions, %d "
+                   "combinations (class x tag list) are defined\\n\", "
+                   "meth2::fn.specs.size()); ++failures; }"
+                   % (len(exp), len(exp)))
+        for i in range(ncls2):
+            out.append("    { int got = 0; bool ni = false; try { got = "
+                       "meth2::fn(*objs[%d]); } catch (NotImplemented&) { ni "
+                       "= true; } catch (int) { got = -2; }" % i)
+            if i in exp:
+                out.append("      if (ni || got != %d) { std::printf(\"FAIL "
+                           "meth2(K<%d>): the definition for (class, tag "
+                           "list) did not run\\n\"); ++failures; } }"
+                           % (exp[i], i))
+            else:
+                out.append("      if (!ni) { std::printf(\"FAIL meth2(K<%d>)"
+                           ": a definition ran, none is defined\\n\"); "
+                           "++failures; } }" % i)
     out.append("    if (!failures) std::printf(\"PASS\\n\");")
     out.append("    return failures != 0;")
     out.append("}")
